@@ -21,14 +21,6 @@ fn one(e: PostingEntry) -> Vec<PostingEntry> {
   v
 }
 
-fn pl3(a: PostingEntry, b: PostingEntry, c: PostingEntry) -> Vec<Vec<PostingEntry>> {
-  let mut v = Vec::with_capacity(3);
-  v.push(one(a));
-  v.push(one(b));
-  v.push(one(c));
-  v
-}
-
 fn pl2(a: PostingEntry, b: PostingEntry) -> Vec<Vec<PostingEntry>> {
   let mut v = Vec::with_capacity(2);
   v.push(one(a));
@@ -45,48 +37,9 @@ fn gap(a: u32, b: u32) -> Option<u32> {
   }
 }
 
-fn entry1(doc: DocId, p0: u32) -> PostingEntry {
-  let mut positions: SmallVec<[u32; 4]> = SmallVec::new();
-  positions.push(p0);
-  PostingEntry {
-    doc_id: doc,
-    term_freq: 1,
-    positions,
-  }
-}
-
-//@ props: C07
-//@ tier: thorough
-//@ timeout: 2700
-//@ funcs: query::phrase::matches_phrase (incl. its recursive `search`)
-//@ symbolic: positions of 3 phrase terms in one document (2 sorted positions for the first term, 1 each for the others, values < 16), slop 0..3
-//@ bounds: 3 terms with 2+1+1 positions, positions < 16, slop <= 3 (3 x 2 positions exhausted 14 GB after 29 minutes)
-//@ oracle: matches iff some choice of one position per term is strictly increasing and the number of skipped tokens between consecutive terms sums to <= slop
-#[kani::proof]
-#[kani::unwind(8)]
-fn c07_phrase_three_terms_reference() {
-  let p: [u32; 4] = kani::any();
-  kani::assume(p[0] < 16 && p[1] < 16 && p[2] < 16 && p[3] < 16);
-  kani::assume(p[0] < p[1]);
-  let slop: u32 = kani::any();
-  kani::assume(slop <= 3);
-  let postings = pl3(entry(7, p[0], p[1]), entry1(7, p[2]), entry1(7, p[3]));
-  let got = matches_phrase(&postings, 7, slop);
-  let mut want = false;
-  let mut a = 0;
-  while a < 2 {
-    if let (Some(g1), Some(g2)) = (gap(p[a], p[2]), gap(p[2], p[3])) {
-      if g1 + g2 <= slop {
-        want = true;
-      }
-    }
-    a += 1;
-  }
-  assert!(got == want, "C07: matches_phrase disagrees with the phrase/slop semantics (3 terms)");
-  kani::cover!(got && slop == 0, "exact 3-term phrase");
-  kani::cover!(got && p[2] > p[1] + 1, "match through the second occurrence with slop");
-  std::mem::forget(postings);
-}
+// Three-term phrases (3 x 2 positions, then 2+1+1 positions) were tried in the thorough
+// tier: the recursive `search` over three position lists exhausts 14 GB (after 29 and 6
+// minutes).  Two terms is what CBMC decides here.
 
 //@ props: C07
 //@ tier: quick
